@@ -456,6 +456,9 @@ class SqlalchemyRender:
                             method = 'outerjoin'
                         if join_type == 'FULL JOIN':
                             is_full = True
+                        if join_type not in ('JOIN', 'INNER JOIN', 'CROSS JOIN', 'LEFT JOIN', 'FULL JOIN'):
+                            # sqlalchemy has no such join: an inner join must not be rendered instead of it
+                            raise NotImplementedError(f'Join type: {join_type}')
 
                         # perform join
                         query = getattr(query, method)(
